@@ -235,7 +235,7 @@ def doPpFile (args : List String) : String :=
   match args with
   | [strip, ignore, path, defs, incs, fs] =>
     let C : Cfg := { K := ppKinds, g := grammar, fs := parseFs fs, includePaths := (splitNE incs ",").map bytesOfHex }
-    let r := preprocessInner C 100000000 (bytesOfHex path) (parseDefines defs) (strip == "1") (ignore == "1") 0
+    let r := preprocessInner C 100000000 (bytesOfHex path) (parseDefines defs) (strip == "1") (ignore == "1") 0 0
     match r with
     | .error e => s!"err {errStr e}"
     | .ok (o, d) => s!"ok {if o.text.isEmpty then "-" else hexOfBytes o.text} [{originsStr o}] [{definesStr d}]"
